@@ -49,7 +49,7 @@ def run(ctx):
     if ctx.quick:
         cfg = cfg.replace("MasterKeys = {1, 3, 5, 7, 9, 11}", "MasterKeys = {1, 5, 9}").replace("MinDerivable = 100", "MinDerivable = 20")
     ctx.mc("PaperWallet", cfg, label="whitelist filter implies NoSecretLeaf / NoSecretString / PublicPreserved, incl. a new secret or public field")
-    events = core.build_events(ctx, gen_inputs(ctx))
+    events = core.build_events(ctx, gen_inputs(ctx) if ctx.quick else core.rounds(ctx, gen_inputs, 6))
     ctx.notes["filtered_leaves_classified"] = sum(len(e["filt"]) for e in events)
     for e in events[:1]:
         ctx.sample({"call": describe(e), "filtered_leaves": [[core.untext(l["ptr"]), core.untext(l["s"])] for l in e["filt"][:5]]})
